@@ -459,7 +459,49 @@ pub fn run_check(id: &str, tier: &str, seed: u64) -> i32 {
         "C03" => sim(&[Amounts, Mixed, Reject], &["R03a", "R03b", "R03c"], n(80_000, 1_500_000), rt, "exploration"),
         "C04" => sim(&[Expiry, Mixed], &["R04a"], n(80_000, 1_500_000), rt, "exploration"),
         "C07" => sim(&[Reject, Mixed], &["R07a", "R07b", "R07c"], n(80_000, 1_500_000), rt, "exploration"),
-        "C10" => sim(&[Classify, Hashes], &["R10"], n(80_000, 1_500_000), rt, "exploration"),
+        "C10" => {
+            // random campaign + the finite classification product, enumerated
+            let rules = ["R10"];
+            let mut agg = campaign(id, &rules, seed, thorough, &[Classify, Hashes], n(60_000, 1_200_000), if thorough { 1200 } else { 60 });
+            install_panic_hook();
+            let cases = crate::c10::cases();
+            let next = AtomicU64::new(0);
+            let total = Mutex::new(Agg::new(&rules));
+            std::thread::scope(|s| {
+                for _ in 0..threads() {
+                    s.spawn(|| {
+                        let mut local = Agg::new(&rules);
+                        loop {
+                            let i = next.fetch_add(1, Ordering::Relaxed) as usize;
+                            if i >= cases.len() {
+                                break;
+                            }
+                            if let Ok(mut r) = std::panic::catch_unwind(std::panic::AssertUnwindSafe(|| crate::c10::run_case(i, &cases[i]))) {
+                                r.seed = i as u64;
+                                if local.samples.len() < 1 && i % 500 == 3 {
+                                    local.samples.push(json!({"case": format!("{:?}", cases[i]), "summary": r.summary}));
+                                }
+                                local.absorb(&r, "product", id);
+                            } else {
+                                crate::sim::PANICS.with(|p| p.borrow_mut().clear());
+                                *local.inconclusive.entry("harness panic in product case".into()).or_insert(0) += 1;
+                            }
+                        }
+                        merge(&mut total.lock().unwrap(), local);
+                    });
+                }
+            });
+            let prod = total.into_inner().unwrap();
+            let n_prod = prod.runs;
+            // product violations are replayed by case index through the witness text
+            let mut prod = prod;
+            for (_, prof, v) in prod.violations.iter_mut() {
+                *prof = "Classify".into();
+                v.detail = format!("[classification product case] {}", v.detail);
+            }
+            merge(&mut agg, prod);
+            conclude(id, tier, seed, "exploration", &agg, &rules, "the finite product invoice{amount present/absent} x signer{payee, explicit payee, explicit payee signed by another key, signature recovering to another key} x hints{none, other, self last, self not last, other then self last} x hash{equal, different} x amount field{absent, equal, +1, -1, padded equal, empty, 9 bytes, single zero byte} x allow_self x forward_msat{present, absent} (2560 cases, each one funded single-HTLC run, pay failing in half of them so that the reported payee is observed), plus random seeded runs of the Classify/Hashes profiles; distinct_nontrivial = distinct abstract traces among runs in which R10 was evaluated", sim_assumptions(), t0, json!({"classification_product_cases": n_prod}), None)
+        }
         "C11" => sim(&[Timeout, Mixed], &["R11a", "R11b", "R11c"], n(80_000, 1_500_000), rt, "exploration"),
         "C13" => sim(&[PassThrough, Mixed], &["R13a", "R13b"], n(80_000, 1_500_000), rt, "exploration"),
         _ => {
